@@ -530,6 +530,70 @@ type c19Walk struct {
 	conds  []ast.Expr
 	pos    map[string]token.Pos // where dst.F was assigned / dst.m() called
 	callAt map[string]token.Pos
+	// > 0: this walk is inside a same-package helper that builds the copy of a nested object (depth of the chain)
+	helperDepth int
+}
+
+// c19HelperDepth bounds the chain of helpers followed for one nested object.
+const c19HelperDepth = 3
+
+// followNestedHelper: `call` is handed the source's nested object (`src.P`, or this walk's own source when p is "")
+// and returns the copy's. If it is a same-package function, its body is walked like a Clone body of the nested
+// struct `nkey`: the source is the argument, the copy is the local it returns, and `copy.F = …` there is a fix-up of
+// row nkey.F. Helpers calling helpers are followed up to c19HelperDepth. Returns false (and changes nothing) when
+// the call is not such a helper — the field then keeps what classify said about the call as a whole.
+func (w *c19Walk) followNestedHelper(env *c19Env, nkey, p string, call *ast.CallExpr, depth int) (bool, error) {
+	if depth >= c19HelperDepth {
+		return false, nil
+	}
+	if sel, ok := call.Fun.(*ast.SelectorExpr); ok && sel.Sel.Name == "Clone" {
+		return false, nil
+	}
+	srcText := w.src
+	if p != "" {
+		srcText = w.src + "." + p
+	}
+	handed := false
+	for _, a := range call.Args {
+		if t := env.text(a); t == srcText || t == "*"+srcText {
+			handed = true
+		}
+	}
+	if !handed {
+		return false, nil
+	}
+	save := env.depth
+	env.depth = 0 // the bound on this chain is c19HelperDepth, not callee's own
+	fd, ce := w.x.callee(env, call)
+	env.depth = save
+	if fd == nil {
+		return false, nil
+	}
+	rets := c19Returns(fd)
+	if len(rets) != 1 {
+		return false, nil
+	}
+	goType := w.spec.goType
+	if p != "" {
+		goType = w.spec.nestedType[p]
+	}
+	sw := &c19Walk{x: w.x, spec: c19CloneSpec{dir: w.spec.dir, recv: fd.Name.Name, key: nkey, goType: goType},
+		env: ce, src: srcText, pos: map[string]token.Pos{}, callAt: map[string]token.Pos{}, helperDepth: depth + 1}
+	sw.conds = append(sw.conds, w.conds...)
+	ce.depth = 0
+	switch r := rets[0].(type) {
+	case *ast.Ident:
+		if err := sw.stmt(fd.Body); err != nil {
+			return false, err
+		}
+		if sw.dst != r.Name {
+			return false, fmt.Errorf("%s: helper %s returns %s, which is not the copy the extractor found (%q)", w.spec.recv, fd.Name.Name, r.Name, sw.dst)
+		}
+		return true, nil
+	case *ast.CallExpr: // return inner(cfg)
+		return sw.followNestedHelper(ce, nkey, "", r, depth+1)
+	}
+	return false, nil
 }
 
 // conditional: is an assignment to field (of the object at holderSrc/holderDst) under a condition
@@ -696,12 +760,30 @@ func (w *c19Walk) stmt(st ast.Stmt) error {
 					continue
 				}
 				rs := w.env.text(rhs)
-				if w.dst == "" && s.Tok == token.DEFINE && (rs == w.src || rs == "*"+w.src) {
+				// (inside a helper the source is a parameter: `x := param` of a pointer is an alias, not a copy)
+				if w.dst == "" && s.Tok == token.DEFINE && ((rs == w.src && w.helperDepth == 0) || rs == "*"+w.src) {
 					w.dst = lt.Name
 					for _, f := range x.structs[w.spec.key].fields {
 						f.how, f.via = "assigned", lt.Name+" := "+rs
 					}
 					continue
+				}
+				if w.dst == "" && s.Tok == token.DEFINE && w.helperDepth > 0 {
+					// inside a helper that makes the copy of a NESTED object (followNestedHelper): the copy may start as
+					// the nested type's own shallow Clone() (the rows keep the treatment that Clone gives them) …
+					if rs == w.src+".Clone()" {
+						w.dst = lt.Name
+						continue
+					}
+					// … or as the result of a further helper handed the same source object
+					if call, ok := rhs.(*ast.CallExpr); ok {
+						if followed, err := w.followNestedHelper(w.env, w.spec.key, "", call, w.helperDepth); err != nil {
+							return err
+						} else if followed {
+							w.dst = lt.Name
+							continue
+						}
+					}
 				}
 				if w.dst == "" && s.Tok == token.DEFINE {
 					if lit, env := x.structLiteral(w.env, rhs, w.spec.goType); lit != nil {
@@ -742,6 +824,22 @@ func (w *c19Walk) stmt(st ast.Stmt) error {
 					}
 					if err := w.assignField(w.spec.key, fname, rhs, w.src, w.dst, s.Pos()); err != nil {
 						return err
+					}
+					if nkey, ok := w.spec.nested[fname]; ok {
+						// dst.P = helper(src.P): what the helper does to the fields of the object it returns are
+						// fix-ups of the nested object, exactly as if they were written here (dst.P.F = …)
+						if call, isCall := rhs.(*ast.CallExpr); isCall {
+							followed, err := w.followNestedHelper(w.env, nkey, fname, call, 0)
+							if err != nil {
+								return err
+							}
+							// the chain ends in an object made for the copy (Clone(), value copy, literal): the pointer
+							// is to a fresh object even where classify's own call depth gave up
+							if f := x.structs[w.spec.key].byName[fname]; followed && f != nil && f.how == "assigned" &&
+								w.conditionOnOtherField(fname, w.src, w.dst) == "" {
+								f.how, f.via = "cloned", "helper chain "+w.env.text(call.Fun)+"(…) ends in a copy"
+							}
+						}
 					}
 				case strings.HasPrefix(base, w.dst+"."):
 					// fix-up of a nested object: dst.P.F = …
